@@ -108,7 +108,7 @@ def main():
     run_cases = [l for l in id_cases if l.split(" ", 1)[0] not in danger]
     # oracle cases derived from a screened correspondence case are screened too
     danger_rest = {l.split(" ", 2)[2] for l in id_cases if l.split(" ", 1)[0] in danger}
-    id_orcs = [l for l in id_orcs if l.split(" ", 2)[2] not in danger_rest]
+    id_orcs = [l for l in id_orcs if l.split(" ", 2)[2] not in danger_rest and not any(l.endswith(" prog " + r) for r in danger_rest)]
     impl_out = C.run_bin(C.HARNESS_BIN, run_cases + id_orcs)
     impl_rel = {}
     if tier == "thorough" and P.get("release") and rel_ok:
